@@ -59,6 +59,7 @@ class Unit:
         self.edits = []       # executable-text edits (outline/havoc/closure)
         self.macro_rewrites = []
         self.clauses = []     # contract clauses with labels
+        self.hints_lost = {}  # fn -> [messages]: proof scaffolding whose anchor no longer exists
         self.template = None
 
     def text(self):
@@ -146,8 +147,15 @@ class BodyEmitter:
             if i in self.insert:
                 self._verb(cur, toks[i - 1].end if i > 0 else cur)
                 cur = max(cur, toks[i - 1].end)
-                for text, tline in self.insert[i]:
-                    self.out.append(Seg(" " + text + " ", "scaffold", {"fn": self.fn, "tline": tline}))
+                for text, tline, dk in self.insert[i]:
+                    if dk == "CLAIM":
+                        m = _LABEL.search(text)
+                        lab = m.group(1) if m else None
+                        props = [p for p in ((m.group(2) or "") if m else "").split(",") if p]
+                        self.out.append(Seg(" " + text.split("//#")[0] + " ", "contract",
+                                            {"fn": self.fn, "tline": tline, "label": lab, "props": props, "claim": True}))
+                    else:
+                        self.out.append(Seg(" " + text + " ", "scaffold", {"fn": self.fn, "tline": tline}))
             if i in self.replace:
                 j, text, kind, tline = self.replace[i]
                 self._verb(cur, t.start)
@@ -447,35 +455,53 @@ def _emit_fn(unit, repo, rel, scope, name, opts, flags, contract, directives, va
 
     # ---- body edits ---------------------------------------------------------------------------
     replace, insert = {}, {}
-    for (dk, dopts, pat, rep, tline) in directives:
+    soft_lost = []
+
+    def locate(dk, dopts, pat, tline):
         do = dict(o.split("=", 1) for o in dopts if "=" in o)
         want = do.get("count", "1")
-        optional = "optional" in dopts
+        hits, n = _find_pattern(sf, ob, cb + 1, pat, qual)
+        if "optional" in dopts and not hits:
+            return None, n
+        if (want == "all" and not hits) or (want != "all" and len(hits) != int(want)):
+            msg = "anchor lost in %s (%s line %d): pattern `%s` found %d times, want %s" % (
+                qual, os.path.basename(template_path), tline, pat.strip(), len(hits), want)
+            if dk in ("HINT", "LOOPINV", "CLAIM"):
+                soft_lost.append(msg)
+                return None, n
+            raise GenError(msg)
+        return hits, n
+
+    scaffold = []
+    for (dk, dopts, pat, rep, tline) in directives:
         if dk in ("OUTLINE", "HAVOC", "CLOSURE", "REPLACE"):
-            hits, n = _find_pattern(sf, ob, cb + 1, pat, qual)
-            if optional and not hits:
-                continue
-            if (want == "all" and not hits) or (want != "all" and len(hits) != int(want)):
-                raise GenError("anchor lost in %s (%s line %d): pattern `%s` found %d times, want %s" % (
-                    qual, os.path.basename(template_path), tline, pat, len(hits), want))
-            for h in hits:
+            hits, n = locate(dk, dopts, pat, tline)
+            for h in hits or []:
                 replace[h] = (h + n, rep, dk.lower(), tline)
-                unit.edits.append({"fn": qual, "kind": dk.lower(), "file": rel,
-                                   "line": sf.text.count("\n", 0, toks[h].start) + 1,
-                                   "original": sf.text[toks[h].start:toks[h + n - 1].end], "replacement": rep})
-        elif dk in ("HINT", "LOOPINV"):
-            where = dopts[0] if dopts and dopts[0] in ("after", "before") else ("after" if dk == "HINT" else "after")
-            hits, n = _find_pattern(sf, ob, cb + 1, pat, qual)
-            if optional and not hits:
-                continue
-            if (want == "all" and not hits) or (want != "all" and len(hits) != int(want)):
-                raise GenError("anchor lost in %s (%s line %d): pattern `%s` found %d times, want %s" % (
-                    qual, os.path.basename(template_path), tline, pat, len(hits), want))
-            for h in hits:
+                if not vacuity:
+                    unit.edits.append({"fn": qual, "kind": dk.lower(), "file": rel,
+                                       "line": sf.text.count("\n", 0, toks[h].start) + 1,
+                                       "original": sf.text[toks[h].start:toks[h + n - 1].end], "replacement": rep})
+        elif dk in ("HINT", "LOOPINV", "CLAIM"):
+            where = dopts[0] if dopts and dopts[0] in ("after", "before") else "after"
+            hits, n = locate(dk, dopts, pat, tline)
+            for h in hits or []:
                 at = h + n if where == "after" else h
-                insert.setdefault(at, []).append((rep, tline))
+                scaffold.append((at, rep, tline, dk))
         else:
             raise GenError("%s:%d: unknown FN directive %s" % (template_path, tline, dk))
+    if soft_lost:
+        # the proof scaffolding no longer matches the code: drop ALL of it for this function (hints refer to
+        # each other); the function's own failures are then undecided, the rest of the unit is still decided
+        unit.hints_lost[qual] = soft_lost
+        scaffold = []
+    for (at, rep, tline, dk) in scaffold:
+        insert.setdefault(at, []).append((rep, tline, dk))
+        if dk == "CLAIM" and not vacuity:
+            m = _LABEL.search(rep)
+            if m:
+                unit.clauses.append({"fn": qual, "label": m.group(1), "props": [p for p in (m.group(2) or "").split(",") if p],
+                                     "text": rep.split("//#")[0].strip()})
 
     be = BodyEmitter(unit, sf, qual, replace, insert)
     cur = be.emit(ob, cb + 1, toks[ob].start)
